@@ -129,6 +129,23 @@ fn judge(
                     hex(&e)
                 ));
             }
+            // the same call into a buffer that already holds an earlier result: the edited document is
+            // what gets appended (a header or offset written relative to the start of the buffer
+            // instead of the start of this result shows only here)
+            let mut pre = e.clone();
+            pre.extend_from_slice(&[0xAA, 0x55, 0x20]);
+            let plen = pre.len();
+            let r2 = nopanic(what, || call(&mut pre))?;
+            if let Err(x) = r2 {
+                return Err(format!("{what}: succeeded into an empty buffer but returned {x:?} into a buffer that held {plen} bytes"));
+            }
+            if pre.len() < plen || pre[..plen - 3] != e[..] || pre[plen - 3..plen] != [0xAA, 0x55, 0x20] || pre[plen..] != e[..] {
+                return Err(format!(
+                    "{what}: into a buffer that already held {plen} bytes (an earlier result and AA5520) the buffer became {}\n  expected those bytes followed by {}",
+                    hex(&pre),
+                    hex(&e)
+                ));
+            }
             let changed = !w.ident_eq(&input.norm());
             obs.label(if changed { labels.0 } else { labels.1 });
             Ok(changed)
